@@ -328,7 +328,23 @@ func checkKernel(w *load.World, c *core.Collector, f *asmFunc, props []string) {
 			mods[r] = li.mod
 		}
 	}
-	if virtual {
+	// hybrid: the count is counted down for a while and then, somewhere after the prologue, turned into
+	// an end address in place (LEAQ (px)(n*4), n): from there on the register is a limit of the cursor
+	convAt := map[int]bool{}
+	if !virtual {
+		for i := firstBranch; i < len(f.ins); i++ {
+			in := f.ins[i]
+			if in.op != "LEAQ" || len(in.args) != 2 || in.args[1] != cnt {
+				continue
+			}
+			if m := memRe.FindStringSubmatch(in.args[0]); m != nil && m[1] == "" && m[2] == px && m[3] == cnt && m[4] == "4" {
+				convAt[i] = true
+				skip[i] = true
+			}
+		}
+	}
+	hybrid := len(convAt) > 0
+	if virtual || hybrid {
 		// the count register is not counted down in these forms: that every element is consumed is what
 		// the symbolic traversal below establishes (the limit counters are zero at RET)
 		checkRegisterFlow(w, c, f, "", props)
@@ -383,6 +399,44 @@ func checkKernel(w *load.World, c *core.Collector, f *asmFunc, props []string) {
 		}
 		blockAt[st] = len(blocks)
 		blocks = append(blocks, ablock{st, en, lastLabel})
+	}
+	// in which blocks the count register is already an end address (hybrid form)
+	entryVirt := make([]int, len(blocks)) // 0 unknown, 1 plain, 2 end address, 3 both (inconsistent)
+	if hybrid {
+		entryVirt[0] = 1
+		for iter := 0; iter < len(blocks)+2; iter++ {
+			for bi, b := range blocks {
+				if entryVirt[bi] == 0 {
+					continue
+				}
+				out := entryVirt[bi]
+				for i := b.start; i <= b.end; i++ {
+					if convAt[i] {
+						out = 2
+					}
+				}
+				push := func(t int) {
+					if t >= 0 && t < len(blocks) {
+						entryVirt[t] |= out
+					}
+				}
+				last := f.ins[b.end]
+				switch {
+				case last.op == "RET":
+				case last.op == "JMP":
+					if t, ok := f.label[last.args[0]]; ok {
+						push(blockAt[t])
+					}
+				case isJcc(last.op):
+					if t, ok := f.label[last.args[0]]; ok {
+						push(blockAt[t])
+					}
+					push(bi + 1)
+				default:
+					push(bi + 1)
+				}
+			}
+		}
 	}
 	const inf = int64(1) << 40
 	_ = primaryLimit
@@ -462,8 +516,15 @@ func checkKernel(w *load.World, c *core.Collector, f *asmFunc, props []string) {
 		flagReg := ""
 		var cmpK int64
 		cmpCursorFirst, cmpVirtual := false, false
+		asLimit := hybrid && entryVirt[bi] == 2 // the count register holds an end address here
+		if hybrid && entryVirt[bi] == 3 {
+			sm.bad = "the count register holds a count on one way into this block and an end address on another"
+		}
 		for i := b.start; i <= b.end; i++ {
 			in := f.ins[i]
+			if convAt[i] {
+				asLimit = true
+			}
 			if skip[i] {
 				continue
 			}
@@ -523,14 +584,22 @@ func checkKernel(w *load.World, c *core.Collector, f *asmFunc, props []string) {
 					sm.dy += 4 * sign * v
 				case dst == px:
 					sm.dx += sign * v
+					if asLimit {
+						if (sign*v)%4 != 0 {
+							sm.bad = "the x pointer advances by a fraction of an element"
+						}
+						sm.dcs[cnt] += sign * v / 4
+					}
 				case dst == py:
 					sm.dy += sign * v
+				case asLimit && dst == cnt:
+					sm.bad = fmt.Sprintf("%s changes the end address %s", in.op, dst)
 				case virtual && isCounter(dst):
 					sm.bad = fmt.Sprintf("%s changes the limit %s", in.op, dst)
 				case isCounter(dst):
 					sm.dcs[dst] -= sign * v
 				}
-				flagsOK, flagReg, cmpK = isCounter(dst) && !virtual, dst, 0
+				flagsOK, flagReg, cmpK = isCounter(dst) && !virtual && !asLimit, dst, 0
 			case "INCQ", "DECQ":
 				sign := int64(1)
 				if in.op == "DECQ" {
@@ -551,7 +620,14 @@ func checkKernel(w *load.World, c *core.Collector, f *asmFunc, props []string) {
 			case "CMPQ":
 				flagsOK = false
 				cmpCursorFirst, cmpVirtual = false, false
-				if virtual {
+				if asLimit {
+					switch {
+					case in.args[0] == px && in.args[1] == cnt:
+						flagsOK, flagReg, cmpK, cmpVirtual, cmpCursorFirst = true, cnt, 0, true, true
+					case in.args[1] == px && in.args[0] == cnt:
+						flagsOK, flagReg, cmpK, cmpVirtual = true, cnt, 0, true
+					}
+				} else if virtual {
 					switch {
 					case in.args[0] == cursor && isCounter(in.args[1]):
 						flagsOK, flagReg, cmpK, cmpVirtual, cmpCursorFirst = true, in.args[1], 0, true, true
